@@ -76,6 +76,8 @@ type L1Gen struct {
 	Model *L1Model
 	// MaxPerBlock bounds the events of a block.
 	MaxPerBlock int
+	// Roots, when set, supplies the exit roots of the next L1 info leaf (joint L1/L2 reference of C09).
+	Roots func(r *Rand) (mer, rer common.Hash)
 }
 
 func NewL1Gen() *L1Gen { return &L1Gen{Model: NewL1Model(), MaxPerBlock: 3} }
@@ -112,9 +114,13 @@ func (g *L1Gen) Fill(r *Rand, density int) func(b *FBlock) {
 			if r.Bool(60) {
 				var mer, rer common.Hash
 				for {
-					mer, rer = genHash(r), genHash(r)
-					if len(g.Model.Leaves) > 0 && r.Intn(4) == 0 {
-						rer = g.Model.Leaves[r.Intn(len(g.Model.Leaves))].RER
+					if g.Roots != nil {
+						mer, rer = g.Roots(r)
+					} else {
+						mer, rer = genHash(r), genHash(r)
+						if len(g.Model.Leaves) > 0 && r.Intn(4) == 0 {
+							rer = g.Model.Leaves[r.Intn(len(g.Model.Leaves))].RER
+						}
 					}
 					ger := keccak2(mer, rer)
 					if !g.Model.GERs[ger] && !gers[ger] {
